@@ -31,6 +31,8 @@ type PCfg struct {
 	YieldProb   uint32 `json:"yield_prob"`
 	ShortReads  int    `json:"short_reads"`
 	MaxDeflate  int    `json:"max_deflate_level,omitempty"` // 0 = nsqd's default (6)
+	UnixTCP     bool   `json:"unix_tcp,omitempty"`  // the client port is a unix-domain socket
+	UnixHTTP    bool   `json:"unix_http,omitempty"` // the HTTP port is a unix-domain socket
 }
 
 type pConn struct {
@@ -93,6 +95,17 @@ func genPCfg(rc *RunCtx) PCfg {
 	c.YieldProb = uint32(r.Pick(0, 1024, 4096))
 	c.ShortReads = r.Pick(0, 2, 8)
 	c.MaxDeflate = r.Pick(0, 1, 3, 6, 9)
+	if ur := NewPRNG(rc.Seed ^ 0x50c8); ur.Chance(1, 4) {
+		// every mix of listeners: both unix sockets, or only one of them
+		switch ur.Intn(3) {
+		case 0:
+			c.UnixTCP = true
+		case 1:
+			c.UnixHTTP = true
+		default:
+			c.UnixTCP, c.UnixHTTP = true, true
+		}
+	}
 	return c
 }
 
@@ -122,6 +135,12 @@ func protoWorld(rc *RunCtx) {
 	o := nsqd.NewOptions()
 	o.Logger = &simLogger{rc: rc, name: "nsqd"}
 	o.TCPAddress, o.HTTPAddress, o.HTTPSAddress = "127.0.0.1:4150", "127.0.0.1:4151", "127.0.0.1:4152"
+	if c.UnixTCP {
+		o.TCPAddress = "/sim/nsqd.sock"
+	}
+	if c.UnixHTTP {
+		o.HTTPAddress = "/sim/nsqd-http.sock"
+	}
 	o.BroadcastAddress = "127.0.0.1"
 	o.DataPath = rc.Dir
 	o.MaxMsgSize, o.MaxBodySize, o.MaxRdyCount = c.MaxMsgSize, c.MaxBodySize, c.MaxRdy
@@ -151,7 +170,7 @@ func protoWorld(rc *RunCtx) {
 	w.n = n
 	go n.Main()
 	rc.Defer(func() { n.Exit(); synctest.Wait() })
-	w.tcp, w.http = "127.0.0.1:4150", "127.0.0.1:4151"
+	w.tcp, w.http = o.TCPAddress, o.HTTPAddress
 	synctest.Wait()
 	rc.Logf("cfg %+v", c)
 	if !w.bystanderSetup() {
@@ -311,7 +330,7 @@ func genTCPOps(rc *RunCtx, c PCfg) []Op {
 		case 5:
 			add(Op{Kind: "cmd", S: "RDY", A: conn, B: int64(r.Intn(15))})
 		case 6:
-			add(Op{Kind: "cmd", S: r.PickS("FIN", "REQ", "TOUCH"), A: conn, B: int64(r.Intn(6))})
+			add(Op{Kind: "cmd", S: r.PickS("FIN", "REQ", "TOUCH"), A: conn, B: int64(r.Intn(6)), C: int64(r.Intn(8))})
 		case 7:
 			add(Op{Kind: "cmd", S: r.PickS("CLS", "NOP", "NOP"), A: conn})
 		case 8:
@@ -641,8 +660,20 @@ func (w *pWorld) execCmd(op Op) {
 			}
 		}
 		line := op.S + " " + id
+		badArg := false
 		if op.S == "REQ" {
-			line += " 0"
+			// the delay argument: present (mostly), missing, not a number, followed by a surplus argument
+			switch op.C % 8 {
+			case 5:
+				badArg = true
+			case 6:
+				line += " x1"
+				badArg = true
+			case 7:
+				line += " 0 7"
+			default:
+				line += " 0"
+			}
 		}
 		if id == "" {
 			line = op.S
@@ -657,7 +688,7 @@ func (w *pWorld) execCmd(op Op) {
 		switch {
 		case pc.state != "subscribed" && pc.state != "closing":
 			fatal("E_INVALID")
-		case id == "" || len(id) != 16:
+		case id == "" || len(id) != 16 || badArg:
 			fatal("E_INVALID")
 		case inflight:
 			exp = pExpect{open: true} // may have timed out meanwhile: accepted or E_*_FAILED
@@ -1305,6 +1336,26 @@ func (w *pWorld) execHTTPReq(op Op) {
 			w.violate("C10", "malformed-error-body", "%s %s answered %d with body %q (expected JSON with message)", method, pathq, resp.Status, trunc(resp.Body, 80))
 		}
 	}
+	if route == "/info" && resp.Status == 200 {
+		// the ports nsqd listens on; -1 stands for a unix-domain socket
+		var info struct {
+			TCPPort  *int `json:"tcp_port"`
+			HTTPPort *int `json:"http_port"`
+		}
+		wantTCP, wantHTTP := 4150, 4151
+		if w.cfg.UnixTCP {
+			wantTCP = -1
+		}
+		if w.cfg.UnixHTTP {
+			wantHTTP = -1
+		}
+		if json.Unmarshal(resp.Body, &info) != nil || info.TCPPort == nil || info.HTTPPort == nil {
+			w.violate("C10", "info-unreadable", "GET /info answered %q", trunc(resp.Body, 120))
+		} else if *info.TCPPort != wantTCP || *info.HTTPPort != wantHTTP {
+			w.violate("C10", "info-wrong-ports", "GET /info reports tcp_port %d http_port %d, the daemon listens on %s and %s", *info.TCPPort, *info.HTTPPort, w.tcp, w.http)
+		}
+		rc.Probe("info_checked")
+	}
 	if checkList {
 		if newList != nil && resp.Status == 200 {
 			w.lookupdList = newList
@@ -1337,7 +1388,7 @@ func (w *pWorld) noteMaybeTopic(t string, valid bool) {
 // httpChunked sends the body with chunked transfer encoding (no Content-Length).
 func httpChunked(rc *RunCtx, method, addr, pathq string, body []byte) HTTPResp {
 	var b bytes.Buffer
-	fmt.Fprintf(&b, "%s %s HTTP/1.1\r\nHost: %s\r\nTransfer-Encoding: chunked\r\nConnection: close\r\n\r\n", method, pathq, addr)
+	fmt.Fprintf(&b, "%s %s HTTP/1.1\r\nHost: nsqd\r\nTransfer-Encoding: chunked\r\nConnection: close\r\n\r\n", method, pathq)
 	for len(body) > 0 {
 		n := 7
 		if n > len(body) {
